@@ -221,6 +221,29 @@ func growthSites(fn *ssa.Function) []growthSite {
 					}
 				}
 			}
+			// bulk growth: append(F, make(T, k*(newCount - oldCount))...) with oldCount the current variable count
+			if mk, ok := v.Call.Args[1].(*ssa.MakeSlice); ok {
+				lf := lfOf(mk.Len, 0)
+				var k int64
+				okBulk := lf.c == 0
+				pos, neg := int64(0), int64(0)
+				for name, c := range lf.terms {
+					switch {
+					case c == 0:
+					case strings.Contains(name, "nbVars") && c < 0:
+						neg = -c
+					case c > 0 && pos == 0:
+						pos = c
+					default:
+						okBulk = false
+					}
+				}
+				if okBulk && pos > 0 && pos == neg {
+					k = pos
+					out = append(out, growthSite{q, -k, st, fn}) // negative: bulk growth by k per new variable
+					return
+				}
+			}
 			out = append(out, growthSite{q, n, st, fn})
 		case *ssa.MakeSlice:
 			if countMultiple(v.Len) > 0 {
@@ -285,7 +308,12 @@ func ruleR9_1(w *World, r *Report) {
 			}
 			var bad []string
 			for _, s := range mine {
-				if s.Elems != 0 {
+				if s.Elems < -1 || bulkOne(s) {
+					// bulk growth by -Elems elements per new variable: no loop needed
+					if f.Mult > 0 && -s.Elems != f.Mult {
+						bad = append(bad, fmt.Sprintf("the bulk growth at %s adds %d element(s) per variable, the constructor allocates %d", w.InstrPos(s.Store), -s.Elems, f.Mult))
+					}
+				} else if s.Elems != 0 {
 					if !w.repeatedUnder(g, s.Fn, s.Store, 0) {
 						bad = append(bad, "the append at "+w.InstrPos(s.Store)+" is not inside a loop over the new variables")
 					}
@@ -786,4 +814,18 @@ func ruleR9_5(w *World, r *Report) {
 	if n == 0 {
 		r.Unk("R9.5", "unit propagation function", "-", "no method of package solver taking []Lit binds its elements at level 1")
 	}
+}
+
+// bulkOne distinguishes "bulk growth by one element per variable" (encoded as Elems == -1 by growthSites when the
+// appended slice is make(T, newCount-oldCount)) from "unknown number of appended elements" (also -1).
+func bulkOne(s growthSite) bool {
+	if s.Elems != -1 {
+		return false
+	}
+	c, ok := s.Store.Val.(*ssa.Call)
+	if !ok || len(c.Call.Args) != 2 {
+		return false
+	}
+	_, isMk := c.Call.Args[1].(*ssa.MakeSlice)
+	return isMk
 }
